@@ -96,11 +96,13 @@ Theorem C29_generator_done_is_final : forall c t s th r ch s1 th1 ch1 site wake 
 Proof. exact generator_done_is_final. Qed.
 Print Assumptions C29_generator_done_is_final.
 
-(* the pool stays usable: at the step at which pipeline() returns no task of this pipeline is queued or being run *)
+(* the pool stays usable: at the step at which pipeline() returns the task set counts no task (outstandingTaskCount_ = pout - gx = 0),
+   nothing of this pipeline is queued, and the only wrappers still on a stack are those of skipped generator tasks whose functor is
+   being destroyed (PEnd: latch count-down by the guard, which co-owns the completion event, then the workRemaining_ decrement) *)
 Theorem C29_pool_usable_after : forall c s t ch s' ch' site,
   reach (mstep c) (init c) s -> mstep c s t ch = Some (s', ch', site) -> done (sh s) = false -> done (sh s') = true ->
-  pout (sh s') = 0 /\ bag (sh s') = [] /\
-  forall th, In th (threads s') -> forall f, In f (stack th) -> match f with FPool _ _ => False | _ => True end.
+  pout (sh s') - gx (sh s') = 0 /\ bag (sh s') = [] /\
+  forall th, In th (threads s') -> forall f, In f (stack th) -> match f with FPool _ PEnd => True | FPool _ _ => False | _ => True end.
 Proof. exact pool_usable_after. Qed.
 Print Assumptions C29_pool_usable_after.
 
